@@ -72,12 +72,13 @@ UNITS_NUM = ["-", "m", "kg", "mm", "1/s", "m/s^2", "%", "°C", "TEXT", "Text", "
 NAMES = ["a", "b", "c", "x y", "é", "col", "T", "a1", "b_2", "-", "1", "nan"]
 
 
-def spell(rng, kind, native, bad_rate=0.0, first_col=False):
+def spell(rng, kind, native, bad_rate=0.0, first_col=False, text_native_rate=0.1):
     """Return (cell, expected, badkind) for one cell of a column of the given kind."""
     r = rng.random()
     if kind == "text":
-        if native and rng.random() < 0.1:
-            c = rng.choice([{"i": 4}, {"f": (1.5).hex()}, {"b": True}] + ([] if first_col else [None]))
+        if native and rng.random() < text_native_rate:
+            c = rng.choice([{"i": 4}, {"f": (1.5).hex()}, {"b": True}, {"i": 12}, {"f": (2.0).hex()}, {"b": False}]
+                           + ([] if first_col else [None]))
             from .cells import to_py
 
             return c, ["s", str(to_py(c))], None
@@ -159,8 +160,10 @@ def gen_parts(rng, native=False, bad_rate=0.0, max_cols=4, max_rows=4, names=Non
         cols, exp_cols, bad = [], [], []
         for j, k in enumerate(kinds):
             cs, es = [], []
+            # now and then a text column of native cells only (numbers of mixed kinds, no string among them)
+            tnr = 1.0 if (native and k == "text" and rng.random() < 0.2) else 0.1
             for i in range(nrows):
-                c, e, bk = spell(rng, k, native, bad_rate, first_col=(j == 0))
+                c, e, bk = spell(rng, k, native, bad_rate, first_col=(j == 0), text_native_rate=tnr)
                 cs.append(c)
                 es.append(e)
                 if bk:
